@@ -69,6 +69,11 @@ Outcomes(st, o) ==
   LET ps == st.ps  k == o.k IN
   CASE o.op = "add"      -> {Out(St(Append(ps, P(k, o.v))), Ok(<<>>))}
     [] o.op = "addlist"  -> {Out(St(AddList(ps, k, o.vs)), Ok(<<>>))}
+    (* an argument that breaks off: the iterable raises after o.d items. The call raises; what it had taken in before may or *)
+    (* may not have been applied (an implementation may collect the items first), but nothing else has happened            *)
+    [] o.op = "addlist_failing" -> {Out(St(AddList(ps, k, SubSeq(o.vs, 1, i))), Err("RuntimeError")) : i \in 0..o.d}
+    [] o.op = "update_failing"  -> {Out(St(Update(ps, SubSeq(o.arg, 1, i))), Err("RuntimeError")) : i \in 0..o.d}
+    [] o.op = "update_extend_failing" -> {Out(St(ps \o SubSeq(o.arg, 1, i)), Err("RuntimeError")) : i \in 0..o.d}
     [] o.op = "setitem"  -> {Out(St(SetItem(ps, k, o.v)), Ok(<<>>))}
     [] o.op = "delitem"  -> IF HasK(ps, k) THEN {Out(St(DropKey(ps, k)), Ok(<<>>))}
                             ELSE {Out(St(ps), Err("KeyError"))}
